@@ -410,14 +410,14 @@ func (hi *handlerInfo) norm(t *Term) string {
 
 // structFields returns field -> normalised value for a struct-valued (or pointer-to-local-struct) argument.
 func (hi *handlerInfo) structFields(tb *TB, t *Term) map[string]string {
+	if t.Op == "call" {
+		t = tb.Norm(t) // a service-layer mapping helper (req.Suite.toSuiteConfig(), req.toParam()) is read through
+	}
 	if t.Op == "alloc" {
 		saved := tb.curLoad
 		tb.curLoad = nil
 		t = tb.derefOf(t, nil)
 		tb.curLoad = saved
-	}
-	if t.Op == "call" {
-		t = tb.Norm(t) // a service-layer mapping helper (req.Suite.toSuiteConfig()) is read through
 	}
 	out := map[string]string{}
 	if t.Op != "struct" && t.Op != "structover" {
@@ -466,6 +466,10 @@ func checkStructArg(c *Check, w *World, rule, fn, what string, got map[string]st
 		c.Decide(oneOf(g, sp.forms...), rule, fn, what+"."+sp.name, what+"."+sp.name+" ← "+sp.forms[0], fmt.Sprintf("%s.%s is set from %s, expected %s: a field is crossed or transformed", what, sp.name, clip(g, 160), sp.forms[0]), pos)
 	}
 	for k, g := range got {
+		if !seen[k] && libIgnoresParamField(w, what, k) {
+			c.OK(rule, fn, what+"."+k, what+"."+k+" is set, but the library operation never reads that field of its parameter set", pos)
+			continue
+		}
 		if !seen[k] {
 			c.Bad(rule, fn, what+"."+k, fmt.Sprintf("%s.%s is set (%s) although the endpoint documents no such parameter", what, k, clip(g, 120)), pos)
 		}
@@ -653,6 +657,21 @@ func ruleRawSuiteConsistency(c *Check, w *World, tb *TB, rule string) {
 			})
 		}
 		walk(h, nil, 0)
+		// SuiteConfigFromRaws answers with the zero configuration for a name that is not in the table: a handler that
+		// reports its result must have asked the table itself (IsKnownSuite) whether the name is there — a gate that
+		// merely parses the name lets well-formed unregistered names through to an all-zero answer
+		lookup, member := false, false
+		for k := range seen {
+			if strings.HasPrefix(k, "SuiteConfigFromRaws@") {
+				lookup = true
+			}
+			if strings.HasPrefix(k, "IsKnownSuite@") {
+				member = true
+			}
+		}
+		if lookup {
+			c.Decide(member, rule, FuncName(h), "lookup-gated-by-membership", "the table lookup is preceded by the table's own membership test on the same text", "SuiteConfigFromRaws is used without IsKnownSuite on the request path: a name that parses but is not registered is answered with an all-zero configuration", w.Pos(h.Pos()))
+		}
 	}
 	if n == 0 {
 		c.Unk(rule, "api", "raw-suite-text", "no service-layer call taking the raw suite text found", "")
@@ -1027,6 +1046,66 @@ func restRules(c *Check, w *World, tb *TB, ef *Effects, pfx string, only []strin
 				got[e.Lit] = e.Val
 			}
 		}
+		// the table may be a never-written package-level map literal looked up with the argument:
+		// if v, ok := table[s]; ok { return v }; return default
+		mapDef := ""
+		if len(got) == 0 {
+			P0 := fmt.Sprintf("param(%s#0)", FuncName(f))
+			tabSym, okShape := "", true
+			nLook, nDef := 0, 0
+			for _, rt := range Returns(f) {
+				if len(rt.Results) != 1 {
+					okShape = false
+					continue
+				}
+				t := tb.Of(rt.Results[0])
+				under, against := false, false
+				for _, cd := range CondsAt(rt.Block()) {
+					ct := tb.Of(cd.V)
+					if ct.Op == "lookupok" && len(ct.Args) == 2 && ct.Args[0].Op == "gval" && ct.Args[1].String() == P0 {
+						if tabSym == "" || tabSym == ct.Args[0].Sym {
+							tabSym = ct.Args[0].Sym
+							if cd.Pos {
+								under = true
+							} else {
+								against = true
+							}
+						}
+					}
+				}
+				switch {
+				case t.Op == "lookup" && len(t.Args) == 2 && t.Args[0].Op == "gval" && t.Args[1].String() == P0 && under && t.Args[0].Sym == tabSym:
+					nLook++
+				case t.IsConst() && against:
+					nDef++
+					mapDef = t.Sym
+				default:
+					okShape = false
+				}
+			}
+			if okShape && nLook == 1 && nDef == 1 && strings.HasPrefix(tabSym, "otp.") {
+				name := strings.TrimPrefix(tabSym, "otp.")
+				var g *ssa.Global
+				if sp := w.SPkgs[OtpPath]; sp != nil {
+					g, _ = sp.Members[name].(*ssa.Global)
+				}
+				if e, info := w.GlobalInit(OtpPath, name); e != nil && g != nil && w.GlobalNeverWritten(g) {
+					if lit := EvalLit(e, info); lit != nil && lit.Kind == "map" {
+						for i, k := range lit.Keys {
+							ks, isStr := k.Str()
+							if !isStr || i >= len(lit.Elems) || lit.Elems[i] == nil || lit.Elems[i].Kind != "const" || lit.Elems[i].Const == nil {
+								got["?"] = "?"
+								continue
+							}
+							got[ks] = lit.Elems[i].Const.ExactString()
+						}
+					}
+				}
+			}
+			if len(got) == 0 {
+				mapDef = ""
+			}
+		}
 		// a documented spelling without a case of its own is served by the default (case "SHA1" next to default SHA1
 		// is redundant); an undocumented spelling with a case is a deviation
 		ok := true
@@ -1058,6 +1137,9 @@ func restRules(c *Check, w *World, tb *TB, ef *Effects, pfx string, only []strin
 					defOK = tb.Of(p.Result(0)).String() == "const("+def+")"
 				}
 			}
+		}
+		if mapDef != "" {
+			defOK = mapDef == def
 		}
 		c.Decide(ok && defOK, pfx+".4", FuncName(f), "fallback-table", "spellings map to their values and anything else falls back to the documented default", fmt.Sprintf("table is %v (default ok: %v), documented %v default %s", got, defOK, want, def), w.Pos(f.Pos()))
 	}
@@ -1167,4 +1249,62 @@ func methodGateWrapper(tb *TB, wf *ssa.Function, m string) bool {
 		}
 	})
 	return okAll && n > 0
+}
+
+// libIgnoresParamField: what = "<LibFn>.arg<i>"; the library operation LibFn (and everything it calls in the
+// library) never reads field of otp.Param — a handler that fills it in (one request→Param mapping shared by the
+// TOTP and HOTP endpoints sets Period for both) changes nothing.
+func libIgnoresParamField(w *World, what, field string) bool {
+	name := what
+	if i := strings.Index(name, ".arg"); i >= 0 {
+		name = name[:i]
+	}
+	f := w.Func(OtpPath, name)
+	if f == nil || field == "?" {
+		return false
+	}
+	reads := false
+	sawParam := false
+	for g := range w.Reachable(f) {
+		if fnPkgPath(g) != OtpPath || g.Blocks == nil {
+			continue
+		}
+		EachInstr(g, func(in ssa.Instruction) {
+			var t types.Type
+			var idx int
+			switch x := in.(type) {
+			case *ssa.FieldAddr:
+				t, idx = x.X.Type(), x.Field
+			case *ssa.Field:
+				t, idx = x.X.Type(), x.Field
+			default:
+				return
+			}
+			if p, ok := t.Underlying().(*types.Pointer); ok {
+				t = p.Elem()
+			}
+			if t.String() != OtpPath+".Param" {
+				return
+			}
+			sawParam = true
+			if fieldName(t, idx) == field {
+				// a store into the local copy of the defaults does not read the caller's value; anything else counts
+				if fa, isFA := in.(*ssa.FieldAddr); isFA && fa.Referrers() != nil {
+					onlyStores := true
+					for _, r := range *fa.Referrers() {
+						if st, isSt := r.(*ssa.Store); !isSt || st.Addr != ssa.Value(fa) {
+							if _, isDbg := r.(*ssa.DebugRef); !isDbg {
+								onlyStores = false
+							}
+						}
+					}
+					if onlyStores {
+						return
+					}
+				}
+				reads = true
+			}
+		})
+	}
+	return sawParam && !reads
 }
